@@ -37,7 +37,7 @@ CHECKS["C14"] = dict(
     engine="walker+tlc")
 CHECKS["C15"] = dict(
     level="model_checking", design="5/C15, 4.2",
-    text="Lexemes.tla states the OpenQASM 3 lexical grammar as a pool of 213 lexeme descriptors plus NeedsSep; TLC enumerates every ordered pair "
+    text="Lexemes.tla states the OpenQASM 3 lexical grammar as a pool of 217 lexeme descriptors plus NeedsSep; TLC enumerates every ordered pair "
          "of lexemes with every admissible separator (4.7e5 cases) and simulated longer sequences; the real lexer + token table must show exactly "
          "those lexemes (kind, exact text) and no lexical error. Design level: the machine specs Lexer.tla (+) TokenTable.tla (LexedStr::new: kind conversion, keyword tables, "
          "diagnostics) are model-checked against Lexemes for the same 4.4e5 sequences (LexRefine.tla, invariant C15_Model, 8.9e5 states), and bound to the code by the MCLexer replay of C14.",
